@@ -24,6 +24,10 @@ type Trace struct {
 	Ops      []json.RawMessage `json:"ops"`
 	Faults   []json.RawMessage `json:"faults"`
 	Schedule []json.RawMessage `json:"schedule"`
+	// Warmup lists run indices of the same (seed, tier, engine) that are
+	// executed in the same process before this trace (history that matters
+	// only if the code under test keeps process-global state).
+	Warmup []int `json:"warmup,omitempty"`
 
 	// Filled in on reports only.
 	Violation     *Violation     `json:"violation,omitempty"`
